@@ -345,8 +345,8 @@ func (w *vkWorld) query(ev vkEv) vkStep {
 	}
 	n0 := len(w.exchanges())
 	r := w.pl.Ask(ev.Name, ev.Type, h_resolver.Flags{CD: ev.CD, DO: w.key.dnssec}, "tcp")
-	if !w.waitIdle() {
-		return vkStep{Viol: "harness: background refresh did not finish within 3 s", Class: "harness", Elapsed: r.Elapsed}
+	if pre.Found && !w.waitIdle(pre.Handle) { // only a hit on this entry can have started a refresh
+		return vkStep{Viol: "harness: background refresh did not finish within 7 s", Class: "harness-wait", Elapsed: r.Elapsed}
 	}
 	t1 := vtime.Now()
 	ex := w.exchanges()[n0:]
@@ -472,7 +472,9 @@ func (w *vkWorld) digest() (string, bool) {
 	}
 	for _, m := range []map[string]*vkDatum{w.ref.data, w.ref.sub} {
 		for k, d := range m {
-			if rem := d.deadline.Sub(now); rem > 0 {
+			if d.deadline.Equal(vkForever) {
+				parts = append(parts, "D:"+k+"=unbounded")
+			} else if rem := d.deadline.Sub(now); rem > 0 {
 				parts = append(parts, fmt.Sprintf("D:%s=%d", k, vkSecs(rem)))
 			} else if d.ttlEnd.After(now) {
 				nontrivial = true // its lease has ended while its own TTL still runs
